@@ -171,6 +171,66 @@ class HelpersContent:
         close_container(out, m, f)
         return types
 
+    # ---------------------------------------------------------------------------------- helpers
+    def emit_helpers(self, out: Out, probe: bool, record: bool = True):
+        f = self.file
+        m = one(self.items, 'mod', 'helpers')
+        open_container(out, m, f, '    use vstd::prelude::*;\n    use crate::{reqwest, yaserde};\n'
+                                  '    use crate::reqwest::{net_allowed, want_url, want_body, want_auth, transport_ok, the_response, body_read_ok, display};\n'
+                                  '    use crate::yaserde::{ser_string, de_string};')
+        emit_uses(out, m, f)
+        out.spec(sec('S_spec.rs', 'helpers-spec'))
+        req = [('in-domain', 'req.dom(None)'),
+               ('net-only-if-valid', 'req.sat(None) ==> net_allowed()'),
+               ('wanted-url', 'want_url() == url@'),
+               ('wanted-body', 'ser_string::<YI>(req) is Ok ==> want_body() == ser_string::<YI>(req)->Ok_0'),
+               ('wanted-auth', 'want_auth() == wanted_auth_of(credentials)')]
+        ens = [('invalid-request-is-error', '!req.sat(None) ==> res is Err'),
+               ('no-value-for-failed-exchange', 'res is Ok ==> good_exchange::<YI, YO>(req)'),
+               ('value-is-parsed-reply', 'res is Ok ==> res->Ok_0 == de_string::<YO>(the_response().body)->Ok_0'),
+               ('good-exchange-yields-value', 'good_exchange::<YI, YO>(req) ==> res is Ok')]
+        org = {'invalid-request-is-error': 'property', 'no-value-for-failed-exchange': 'property',
+               'value-is-parsed-reply': 'property', 'good-exchange-yields-value': 'property'}
+        known = {'send_soap_request_using_client', 'send_soap_request'}
+        fn = child(m, 'fn', 'send_soap_request_using_client')
+        self._guard_single_send(fn)
+        # Verus cannot take a datatype constructor as a function value: eta-expand
+        # `map_err(SoapError::YaserdeError)` into a closure with the constructor's meaning as postcondition.
+        # Purely additive: the original tokens stay in place between the inserted prefix and suffix.
+        PAT = 'map_err(SoapError::YaserdeError)'
+        n_eta = fn.body.count(PAT)
+        eta = []
+        for k in range(n_eta):
+            eta.append({'at': PAT, 'occurrence': k, 'offset': len('map_err('), 'inline': True,
+                        'text': '|e: String| -> (r: SoapError) ensures r == SoapError::YaserdeError(e) { '})
+            eta.append({'at': PAT, 'occurrence': k, 'offset': len(PAT) - 1, 'inline': True, 'text': '(e) }'})
+        if n_eta:
+            out.edits.append(f'helpers::send_soap_request_using_client: eta-expanded {n_eta} x `map_err(SoapError::YaserdeError)` '
+                             'to `map_err(|e: String| -> (r: SoapError) ensures r == SoapError::YaserdeError(e) { SoapError::YaserdeError(e) })` '
+                             '(Verus does not support a constructor as a function value; original tokens kept in place)')
+        splice_fn(out, fn, f, 'helpers::send_soap_request_using_client', requires=req, ensures=ens, origin=org,
+                  probe=probe, record=record, inserts=eta)
+        fn2 = child(m, 'fn', 'send_soap_request')
+        splice_fn(out, fn2, f, 'helpers::send_soap_request', requires=req, ensures=ens, origin=org, probe=probe, record=record)
+        for c in m.children:
+            if c.kind == 'fn' and c.name not in known:
+                emit_verbatim(out, c, f)
+                out.uncontracted.append(f'{f}: fn {c.name} (line {c.line_span[0]})')
+        close_container(out, m, f)
+
+    @staticmethod
+    def _guard_single_send(fn: Item):
+        """'at most one POST per call' is argued from: `send` is the only wire operation of the stand-in,
+        it consumes its builder, and the body is loop-free with ONE `.send(` call site.  The last two facts
+        are syntactic and are checked here; if they do not hold the argument does not apply -> inconclusive."""
+        from ..rustlex import body_loops
+        toks = fn.toks
+        sends = [k for k in range(fn.open, fn.last) if toks[k].kind == 'ident' and toks[k].text == 'send'
+                 and toks[k - 1].text == '.' and toks[_next_sig(toks, k + 1)].text == '(']
+        if len(sends) != 1 or body_loops(fn):
+            raise AnchorLost(f'send_soap_request_using_client: {len(sends)} `.send(` call sites and {len(body_loops(fn))} loops; '
+                             'the single-POST argument needs exactly one call site in a loop-free body')
+
     # -------------------------------------------------------------------------------- multi_ref
     def emit_multi_ref(self, out: Out, probe: bool, record: bool = True):
         f = self.file
